@@ -165,7 +165,12 @@ def handleC13 : List String → Option String
       | _ => none
     let mode : UdpMode ← if mode = "0" then some .never else if mode = "1" then some .tryFirst
       else if mode = "2" then some .only else none
-    let out := inboundXfr true origin query mode z us ts
+    -- the messages arrive as wire-order records; dns.query._inbound_xfr reads them with one_rr_per_rrset = is_ixfr
+    let one := match queryOf origin z query with
+      | .ok (t, _) => t == ixfrType
+      | .error _ => false
+    let rd := fun (ms : List Msg) => ms.map fun m => { m with answer := parseAnswer one (recsOfAll m.answer) }
+    let out := inboundXfr true origin query mode z (rd us) (rd ts)
     let z0c := C13.canonZone names z
     let z1c := C13.canonZone names out.zone
     let zs := if z0c == z1c then "=" else C13.showZone z1c
